@@ -625,6 +625,20 @@ fn parse_constant_value(
 ) -> DiagnosticResult<WithEmbeddedLocation<GraphQLConstantValue>> {
     from_control_flow(|| {
         to_control_flow(|| {
+            // The token is consumed only if it is an integer that we can represent. Otherwise,
+            // an out-of-range integer would be dropped silently and the next alternative
+            // would parse whatever follows it.
+            let peeked = tokens.peek();
+            if peeked.item == TokenKind::IntegerLiteral
+                && tokens.source(peeked.location.span).parse::<i64>().is_err()
+            {
+                let raw_int_value = tokens.source(peeked.location.span);
+                return Diagnostic::new(
+                    format!("Invalid integer value. Received {raw_int_value}"),
+                    peeked.location.to::<Location>().wrap_some(),
+                )
+                .wrap_err();
+            }
             tokens
                 .parse_source_of_kind(TokenKind::IntegerLiteral)
                 .and_then(|int_literal_string| {
